@@ -113,7 +113,8 @@ _REF_N = {
 }
 _DIM = {'Toric2DCode': 2, 'Planar2DCode': 2, 'RotatedPlanar2DCode': 2, 'Toric3DCode': 3}
 DEC_FORMS = ['absent', 'empty', 'dict', 'list1', 'list2']
-RATE_FORMS = [('scalar', 1), ('list', 1), ('list', 2), ('list', 3)]
+RATE_FORMS = [('scalar', 1), ('list', 1), ('list', 2), ('list', 3), ('scalar-zero', 1), ('list-zero', 2)]
+_ZERO_RATES = {1: [0], 2: [0.0, 0.1]}     # a zero rate is falsy: must still be one requested rate
 FORM_COUNTS = [('dict', 1), ('list', 1), ('poslist', 1), ('list', 2), ('poslist', 2), ('list', 3), ('poslist', 3)]
 
 # roundtrip part
@@ -306,8 +307,8 @@ def _range_and_product(fam, code_form, n_code, noise_form, n_noise, dec_form, ra
     else:
         dec['parameters'] = [fam['dsets'][0], fam['dsets'][1]]
         dlist = [fam['dsets'][0], fam['dsets'][1]]
-    rates = _RATES[n_rates]
-    rate_field = rates[0] if rate_form == 'scalar' else list(rates)
+    rates = _ZERO_RATES[n_rates] if rate_form.endswith('-zero') else _RATES[n_rates]
+    rate_field = rates[0] if rate_form.startswith('scalar') else list(rates)
     rng = {'label': 'c13', 'code': {'name': fam['code'], 'parameters': code_field},
            'error_model': {'name': 'PauliErrorModel', 'parameters': noise_field},
            'decoder': dec, 'error_rate': rate_field}
@@ -857,7 +858,7 @@ def eval_expand(case):
     spec_list = []
     for dec_form in DEC_FORMS:
         for rate_form, n_rates in RATE_FORMS:
-            if case['container'] == 'runs' and (dec_form == 'list1' or rate_form == 'scalar'):
+            if case['container'] == 'runs' and (dec_form == 'list1' or rate_form.startswith('scalar')):
                 continue                 # identical specs once written out as explicit runs
             spec_list.append((dec_form, rate_form, n_rates))
     try:
